@@ -48,9 +48,10 @@ type shape struct {
 	Kind       string // what a well-formed body looks like
 	PasswordOf string // the user whose password endpoint this is ("" = none; "\x00" never matches)
 	PwShape    bool
-	AnyPw      bool // that user's stored password is of type "wildcard": any presented password is the current one
-	May404     bool // the path does not exist: 404 is an acceptable refusal
-	Soft       bool // acceptance is never asserted (only refusal of insufficient credentials)
+	PwKind     string // how the addressed user's password is stored
+	AnyPw      bool   // that user's stored password is of type "wildcard": any presented password is the current one
+	May404     bool   // the path does not exist: 404 is an acceptable refusal
+	Soft       bool   // acceptance is never asserted (only refusal of insufficient credentials)
 }
 
 func buildShapes(fx *fixture, tg *target) []*shape {
@@ -83,10 +84,10 @@ func buildShapes(fx *fixture, tg *target) []*shape {
 	grp("users-noslash", "/.users", "other", true)
 	grp("user", "/.users/"+u.Name, "user", false)
 	s := grp("user-password", "/.users/"+u.Name+"/.password", "password", false)
-	s.PasswordOf, s.PwShape = u.Name, true
+	s.PasswordOf, s.PwShape, s.PwKind = u.Name, true, u.Kind
 	grp("user-unknown-sub", "/.users/"+u.Name+"/.unknown", "other", true)
 	s = grp("other-user-password", "/.users/"+o.Name+"/.password", "password", false)
-	s.PasswordOf, s.PwShape = o.Name, true
+	s.PasswordOf, s.PwShape, s.PwKind = o.Name, true, o.Kind
 	s = grp("wildcard-password-user-password", "/.users/"+tg.Home.AnyPw+"/.password", "password", false)
 	s.PasswordOf, s.PwShape, s.AnyPw = tg.Home.AnyPw, true, true
 	grp("nonexistent-user", "/.users/MRKnouser", "user", true)
@@ -134,9 +135,10 @@ func buildShapes(fx *fixture, tg *target) []*shape {
 // presents what); whether that is sufficient for an endpoint is decided by judge() from
 // the property text alone.
 type cred struct {
-	Class string
-	Hdr   map[string]string
-	Basic bool // a well-formed Basic authorisation: some user name and password are presented
+	Class  string
+	Hdr    map[string]string
+	Basic  bool   // a well-formed Basic authorisation: some user name and password are presented
+	PwKind string // how the presented user's password is stored (plain, pbkdf2, bcrypt)
 
 	GlobalAdmin bool // the server administrator of config.json with the right password
 
@@ -171,7 +173,7 @@ func (w *world) buildCreds(fx *fixture, tg *target) []*cred {
 	add(&cred{Class: pfx + "group-admin-name-with-global-admin-password", Hdr: vsrv.Basic(home.Users["adm"].Name, w.srv.AdminPass)})
 	for _, k := range home.Order {
 		u := home.Users[k]
-		c := &cred{Hdr: vsrv.Basic(u.Name, u.Plain), UserGroup: home.Name, User: u.Name, UserAdmin: u.Admin}
+		c := &cred{Hdr: vsrv.Basic(u.Name, u.Plain), UserGroup: home.Name, User: u.Name, UserAdmin: u.Admin, PwKind: u.Kind}
 		switch k {
 		case "adm":
 			c.Class = pfx + "group-admin"
@@ -388,7 +390,7 @@ func (m *matrixRun) one(s *shape, method string, c *cred, n int, noneAccepted *b
 	st, rh, rb, err := w.do(method, s.Path, hdr, body, c.Class)
 	after := w.snapshot()
 	changed := snapDiff(m.base.snap, after)
-	w.eval(method + "|" + s.Name + "|" + c.Class + "|" + expect)
+	w.eval(method + "|" + s.Name + "|" + c.Class + "|" + expect + "|" + c.PwKind + "|" + s.PwKind)
 	defer func() {
 		if len(changed) > 0 {
 			w.restore(m.base)
